@@ -224,6 +224,29 @@ class Ctx:
             raise InfraError("replay stage %s produced no cases (vacuous)\n%s" % (tag, tl[-2000:]))
         return summ
 
+    # ---- TLC-generated cases written to a file (input of recorders)
+    def generate(self, module, cfg, out_path, tag=None, timeout=1500, xmx="8g", xss="64m", every=1):
+        tag = tag or "gen-" + os.path.splitext(os.path.basename(cfg))[0]
+        cmd = tlc_cmd(os.path.join(TLA, module), os.path.join(TLA, cfg), xmx=xmx, metadir=self._meta(tag), xss=xss)
+        t = time.time()
+        try:
+            r = subprocess.run(cmd, cwd=TLA, stdout=subprocess.PIPE, stderr=subprocess.STDOUT, text=True, timeout=timeout)
+        except subprocess.TimeoutExpired:
+            raise InfraError("TLC timeout generating %s" % tag)
+        if r.returncode != 0:
+            raise InfraError("generator %s exit %d\n%s" % (tag, r.returncode, r.stdout[-2000:]))
+        n = 0
+        with open(out_path, "w") as f:
+            for i, line in enumerate(l for l in r.stdout.splitlines() if l.startswith('<<"CASE"')):
+                if i % every == 0:
+                    f.write(line + "\n")
+                    n += 1
+        st = parse_tlc(r.stdout)
+        self.states += st["distinct"]
+        self.transitions += st["generated"]
+        self.note("G", tag=tag, distinct=st["distinct"], kept=n, wall=round(time.time() - t, 1))
+        return n
+
     # ---- direct harness run (recorders, fuzz-style drivers fed by files)
     def run_harness(self, harness_bin, harness_args=(), tag="run", timeout=1500, stdin_path=None, env=None):
         out = self.path("sum-%s.json" % tag)
